@@ -3,9 +3,12 @@
 use crate::outcome::Outcome;
 use crate::Ctx;
 
+pub mod c02;
 pub mod c05;
 pub mod c07;
+pub mod c08;
 pub mod c12;
+pub mod c13;
 
 pub struct Spec {
     pub id: &'static str,
@@ -19,6 +22,15 @@ pub struct Spec {
 
 pub fn spec(id: &str) -> Option<Spec> {
     Some(match id {
+        "C08" => Spec {
+            id: "C08",
+            level: "exploration",
+            shards_quick: 8,
+            shards_thorough: 14,
+            min_evaluations: 1_000,
+            min_nontrivial: 300,
+            run: c08::run,
+        },
         "C12" => Spec {
             id: "C12",
             level: "exploration",
@@ -27,6 +39,15 @@ pub fn spec(id: &str) -> Option<Spec> {
             min_evaluations: 10_000,
             min_nontrivial: 500,
             run: c12::run,
+        },
+        "C02" => Spec {
+            id: "C02",
+            level: "exploration",
+            shards_quick: 8,
+            shards_thorough: 14,
+            min_evaluations: 500,
+            min_nontrivial: 200,
+            run: c02::run,
         },
         "C05" => Spec {
             id: "C05",
@@ -45,6 +66,15 @@ pub fn spec(id: &str) -> Option<Spec> {
             min_evaluations: 10_000,
             min_nontrivial: 1_000,
             run: c07::run,
+        },
+        "C13" => Spec {
+            id: "C13",
+            level: "exploration",
+            shards_quick: 8,
+            shards_thorough: 14,
+            min_evaluations: 1_000,
+            min_nontrivial: 300,
+            run: c13::run,
         },
         _ => return None,
     })
